@@ -585,6 +585,22 @@ func (a *adversary) forgeQC(nd *Node, kind string, view hotstuff.View) (hotstuff
 			}
 		}
 		return hotstuff.NewQuorumCert(sig, b.View(), b.Hash()), true
+	case "genesissig":
+		// the genesis certificate (view 0, genesis hash) needs no signature - here it carries one: no signer at all,
+		// the Byzantine replica alone, or the Byzantine replica a quorum of times
+		var sig hotstuff.QuorumSignature
+		switch a.intn(3) {
+		case 0:
+			sig = emptySig(w.plan.Crypto)
+		case 1:
+			sig = a.ownSig(nd, []byte("genesis"))
+		default:
+			sig = repeatSig(a.ownSig(nd, []byte("genesis")), q)
+		}
+		if sig == nil {
+			return hotstuff.QuorumCert{}, false
+		}
+		return hotstuff.NewQuorumCert(sig, 0, hotstuff.GetGenesis().Hash()), true
 	case "zeroview":
 		// an unsigned certificate that claims view 0 (the genesis certificate's shape) for some other block
 		b := a.craftBlock(nd, view)
@@ -670,7 +686,7 @@ func (a *adversary) forgeTC(nd *Node) hotstuff.TimeoutCert {
 	return hotstuff.NewTimeoutCert(a.ownSig(nd, v.ToBytes()), v)
 }
 
-var qcForgeries = []string{"dupsigner", "relabel", "subquorum", "wrongblock", "genesisview", "swapids", "nosig", "zeroview"}
+var qcForgeries = []string{"dupsigner", "relabel", "subquorum", "wrongblock", "genesisview", "swapids", "nosig", "zeroview", "genesissig"}
 
 func (a *adversary) pickForgery(acts []string) string {
 	var have []string
